@@ -23,7 +23,6 @@ import (
 	"github.com/polydawn/refmt/cbor"
 	"github.com/polydawn/refmt/json"
 	"github.com/polydawn/refmt/obj/atlas"
-	"github.com/polydawn/refmt/shared"
 	"github.com/polydawn/refmt/tok"
 )
 
@@ -53,7 +52,8 @@ func (w *concWork) opts() (refmt_EncodeOptions, refmt_DecodeOptions) {
 }
 
 // one job = one result string; kind 0 marshal item i, 1 unmarshal item i's bytes, 2 clone item i, 3 unmarshal doc i
-func (w *concWork) job(atl atlas.Atlas, kind, i int, m refmt.Marshaller, mbuf *bytes.Buffer, cl refmt.Cloner) (res string) {
+// detail carries the text of the error, which is compared between the sequential and the concurrent runs (never with the model)
+func (w *concWork) job(atl atlas.Atlas, kind, i int, m refmt.Marshaller, mbuf *bytes.Buffer, cl refmt.Cloner) (res, detail string) {
 	defer func() {
 		if r := recover(); r != nil {
 			res = "panic"
@@ -73,19 +73,19 @@ func (w *concWork) job(atl atlas.Atlas, kind, i int, m refmt.Marshaller, mbuf *b
 			bs, err = refmt.MarshalAtlased(eo, it.v.Interface(), atl)
 		}
 		if err != nil {
-			return "merr"
+			return "merr", err.Error()
 		}
-		return "m:" + hexOrDash(bs)
+		return "m:" + hexOrDash(bs), ""
 	case 1:
 		it := w.items[i]
 		if w.mbytes[i] == nil {
-			return ""
+			return "", ""
 		}
 		target := reflect.New(it.t.rt)
 		if err := refmt.UnmarshalAtlased(do, w.mbytes[i], target.Interface(), atl); err != nil {
-			return "uerr"
+			return "uerr", err.Error()
 		}
-		return "u:" + printValue(it.t, target.Elem())
+		return "u:" + printValue(it.t, target.Elem()), ""
 	case 2:
 		it := w.items[i]
 		dst := reflect.New(it.t.rt)
@@ -96,16 +96,16 @@ func (w *concWork) job(atl atlas.Atlas, kind, i int, m refmt.Marshaller, mbuf *b
 			err = refmt.CloneAtlased(it.v.Interface(), dst.Interface(), atl)
 		}
 		if err != nil {
-			return "cerr"
+			return "cerr", err.Error()
 		}
-		return "c:" + printValue(it.t, dst.Elem())
+		return "c:" + printValue(it.t, dst.Elem()), ""
 	default:
 		d := w.docs[i]
 		target := reflect.New(d.t.rt)
 		if err := refmt.UnmarshalAtlased(cbor.DecodeOptions{}, d.bs, target.Interface(), atl); err != nil {
-			return "derr"
+			return "derr", err.Error()
 		}
-		return "d:" + printValue(d.t, target.Elem())
+		return "d:" + printValue(d.t, target.Elem()), ""
 	}
 }
 
@@ -125,26 +125,11 @@ func (w *concWork) jobs() []concJob {
 }
 
 func encodeTokensCBOR(toks []tok.Token) ([]byte, bool) {
+	// stepped directly (a document cut short is wanted too: the bytes written so far)
 	var buf bytes.Buffer
 	enc := cbor.NewEncoder(&buf)
-	i := 0
-	src := func(slot *tok.Token) (bool, error) {
-		*slot = toks[i]
-		i++
-		return i == len(toks), nil
-	}
-	ok := true
-	func() {
-		defer func() {
-			if recover() != nil {
-				ok = false
-			}
-		}()
-		if err := (shared.TokenPump{TokenSource: tokenSourceFunc(src), TokenSink: enc}).Run(); err != nil {
-			ok = false
-		}
-	}()
-	return buf.Bytes(), ok
+	class, _ := driveSink(enc, toks)
+	return buf.Bytes(), class == "fin" || class == "starved"
 }
 
 type tokenSourceFunc func(*tok.Token) (bool, error)
@@ -241,10 +226,19 @@ func runConc(payload string) string {
 	}
 	js := w.jobs()
 	seq := make([]string, len(js))
+	seqErr := make([]string, len(js))
 	for k, j := range js {
-		seq[k] = w.job(w.atl, j.kind, j.i, nil, nil, nil)
+		seq[k], seqErr[k] = w.job(w.atl, j.kind, j.i, nil, nil, nil)
 		if seq[k] == "panic" {
 			return "panic"
+		}
+	}
+	// the text of an error is held against the concurrent runs only where a second sequential run repeats it
+	for k, j := range js {
+		if seqErr[k] != "" {
+			if _, again := w.job(w.atl, j.kind, j.i, nil, nil, nil); again != seqErr[k] {
+				seqErr[k] = "?"
+			}
 		}
 	}
 	// concurrent runs, under varying GOMAXPROCS
@@ -271,11 +265,14 @@ func runConc(payload string) string {
 				order := r.Perm(len(js))
 				for _, k := range order {
 					j := js[k]
-					var got string
+					var got, gotErr string
 					if (g+round)%2 == 0 {
-						got = w.job(w.atlC, j.kind, j.i, m, &mbuf, cl) // this goroutine's long-lived instances
+						got, gotErr = w.job(w.atlC, j.kind, j.i, m, &mbuf, cl) // this goroutine's long-lived instances
 					} else {
-						got = w.job(w.atlC, j.kind, j.i, nil, nil, nil) // package-level helpers (fresh instances)
+						got, gotErr = w.job(w.atlC, j.kind, j.i, nil, nil, nil) // package-level helpers (fresh instances)
+					}
+					if got == seq[k] && seqErr[k] != "?" && gotErr != seqErr[k] {
+						got = got + " with error text " + gotErr
 					}
 					if k == 0 && round == 0 {
 						// the atlas-less package-level helper too, on a plain value
@@ -288,7 +285,7 @@ func runConc(payload string) string {
 					if got != seq[k] {
 						mu.Lock()
 						if diff == "" {
-							diff = fmt.Sprintf("goroutine %d round %d job %d/%d: got %.120s want %.120s", g, round, j.kind, j.i, got, seq[k])
+							diff = fmt.Sprintf("goroutine %d round %d job %d/%d: got %.200s want %.120s %.200s", g, round, j.kind, j.i, got, seq[k], seqErr[k])
 						}
 						mu.Unlock()
 						return
@@ -348,13 +345,40 @@ func genConc(g *G, tier string, emit func(string)) {
 			its = append(its, "(it "+t.String()+" "+printValue(t, v)+")")
 			// a document for the same type that carries every ignored key of its struct map
 			if atl, err := c.atl.build(); err == nil {
-				if class, toks := marshalTokens(atl, v.Interface(), 100000); class == "ok" && len(toks) > 0 && toks[0].Type == tok.TMapOpen {
+				if class, toks := marshalTokens(atl, v.Interface(), 100000); class == "ok" && len(toks) > 0 {
+					// failing documents: every error path reads the shared atlas too (member lists, field names)
+					if len(toks) >= 2 {
+						var strs, scal []int
+						for p, tk := range toks {
+							switch tk.Type {
+							case tok.TString:
+								strs = append(strs, p)
+							case tok.TInt, tok.TUint, tok.TBool, tok.TFloat64, tok.TBytes:
+								scal = append(scal, p)
+							}
+						}
+						mutate := func(p int, f func(*tok.Token)) {
+							nt := append([]tok.Token{}, toks...)
+							f(&nt[p])
+							g.count("doc-mutated")
+							docs = append(docs, t.String()+" | "+printTokens(nt))
+						}
+						for n := 0; n < 3 && len(strs) > 0; n++ {
+							mutate(strs[g.intn(len(strs))], func(tk *tok.Token) { tk.Str = "no such name" })
+						}
+						if len(scal) > 0 {
+							p := scal[g.intn(len(scal))]
+							nt := append(append(append([]tok.Token{}, toks[:p]...), tok.Token{Type: tok.TArrOpen, Length: 0}, tok.Token{Type: tok.TArrClose}), toks[p+1:]...)
+							g.count("doc-mutated")
+							docs = append(docs, t.String()+" | "+printTokens(nt))
+						}
+					}
 					st := t
 					for st.k == "pt" {
 						st = st.elem
 					}
 					for _, e := range c.atl.entries {
-						if e.kind != "smap" || e.t.rt != st.rt {
+						if toks[0].Type != tok.TMapOpen || e.kind != "smap" || e.t.rt != st.rt {
 							continue
 						}
 						var extra []tok.Token
